@@ -46,6 +46,12 @@ def run(ck, ctx):
                       "hands each side's selection to) every iteration over the delivered batch passes ShardReplicaState::apply_remote_delta - no "
                       "delta is skipped by origin, stamp or kind before the merge (a node that lost what it once stamped must take it back from "
                       "its peer, or the buckets stay divergent in every round) - and the loop walks the whole batch")
+    ck.rule("R18.12", "a completed sync leaves both sides with the merge: the merge functions the delivered selections pass through are certified lattice "
+                      "joins (commutative, idempotent, shape-certified - the C07 certificate R07.0-R07.2, shared): with a merge that depends on "
+                      "argument order the two sides of one sync end up different and the next round finds the same divergence again (the open "
+                      "type-mismatch associativity finding stays with C07)")
+    from . import c07 as _c07
+    _c07.certify(ck, rid=lambda r: "R18.12", floor_id="R18.12", skip_rules=("R07.3",))
     for cfg in ctx.configs:
         prog = ctx.prog(cfg)
         ck.configs.append(cfg)
